@@ -7,6 +7,8 @@ import StsModel.Drv.Conf
 import StsModel.Drv.Send
 import StsModel.Drv.Queue
 import StsModel.Drv.Wire
+import StsModel.Drv.Path
+import StsModel.Drv.Auth
 namespace Sts.Drv
 
 def main (args : List String) : IO UInt32 :=
@@ -22,6 +24,8 @@ def main (args : List String) : IO UInt32 :=
   | ["queue"] => run queueStep ([], [])
   | ["queuep"] => run queueStep ([], [])
   | ["wire"] => run wireStep {}
+  | ["path"] => run pathStep ()
+  | ["auth"] => run authStep Srv.init
   | _ => do
     IO.eprintln "usage: stsdrv <component>   (ranges, stage, logfmt, chunkbin, scan, conf, send, queue, queuep)"
     return 2
